@@ -407,6 +407,8 @@ def same_key(k1: Any, k2: Any) -> bool:
         return isinstance(k2, float) and math.isnan(k2)
     elif isinstance(k1, AbstractQName) ^ isinstance(k2, AbstractQName):
         return False
+    elif isinstance(k1, bool) ^ isinstance(k2, bool):
+        return False  # a boolean is never the same key as a number (True == 1 in Python)
 
     try:
         return True if k1 == k2 else False
